@@ -2,6 +2,7 @@ package main
 
 import (
 	"fmt"
+	"strings"
 	"go/token"
 	"go/types"
 
@@ -466,7 +467,7 @@ func flagPlumbing(c *Ctx) *flagPlumb {
 					return
 				}
 				n := callName(&call.Call)
-				if len(n) < 20 || n[:len("(*flag.FlagSet).")] != "(*flag.FlagSet)." {
+				if !strings.HasPrefix(n, "(*flag.FlagSet).") {
 					return
 				}
 				args := call.Call.Args
